@@ -149,6 +149,10 @@ func comparePrereleaseIdentifiers(a, b string) int {
 
 // tryParseInt attempts to parse a string as an integer
 func tryParseInt(s string) (int, bool) {
+	// a numeric identifier consists of digits only; "-5" is alphanumeric, not the integer -5
+	if s == "" || s[0] < '0' || s[0] > '9' {
+		return 0, false
+	}
 	num, err := strconv.Atoi(s)
 	return num, err == nil
 }
